@@ -7,6 +7,7 @@
 #pragma once
 #include "pbt.hpp"
 #include "nngh.h"
+#include "rawpeer.h"
 #include <nng/http.h>
 #include <deque>
 #include <unistd.h>
@@ -105,6 +106,7 @@ struct Machine {
 	std::vector<int> rcs; // return code of every operation (or -1000 when it has none)
 	int              nurl = 0;
 	std::vector<std::string> paths;
+	std::vector<rp>  raws; // round 7: raw wire peers that completed the SP handshake and never read (stalled subscribers / pullers ...)
 	nng_http_server *hsrv = nullptr; // HTTP world (one echo server per machine)
 	bool             final_probe = false; // run one more fault-free HTTP round before teardown
 	int              final_http  = -1000;
@@ -414,6 +416,31 @@ step(Machine *M, const vop *o)
 		E->is_dialer = true;
 		E->open      = true;
 		return 0;
+	}
+	if (strcmp(n, "stallpeer") == 0) {
+		// a raw wire peer of the matching protocol connects to listener a0 (ipc / tcp), completes the SP handshake and then
+		// never reads: the socket's pipe to it stays busy after a few large messages, its per-pipe queues fill and overflow
+		static const uint16_t kId[NPROTO] = {0x10, 0x11, 0x20, 0x21, 0x50, 0x51, 0x30, 0x31, 0x62, 0x63, 0x70};
+		static const uint16_t kPeer[NPROTO] = {0x10, 0x11, 0x21, 0x20, 0x51, 0x50, 0x31, 0x30, 0x63, 0x62, 0x70};
+		Ep *E = &M->eps[(size_t) (a0 < 0 ? -a0 : a0) % 8];
+		if (!E->open || E->is_dialer || M->raws.size() >= 4)
+			return -1000;
+		(void) kId;
+		rp  r;
+		int rv = -1;
+		if (E->url.compare(0, 7, "ipc:///") == 0)
+			rv = rp_connect_ipc(&r, E->url.c_str() + 6);
+		else if (E->url.compare(0, 16, "tcp://127.0.0.1:") == 0)
+			rv = rp_connect_tcp(&r, atoi(E->url.c_str() + 16));
+		else
+			return -1000;
+		if (rv != 0)
+			return -1000;
+		uint16_t theirs = 0;
+		(void) rp_handshake(&r, kPeer[M->socks[E->sock].proto], &theirs);
+		M->raws.push_back(r);
+		vs_settle();
+		return -1000;
 	}
 	if (strcmp(n, "epclose") == 0) {
 		Ep *E = &M->eps[(size_t) (a0 < 0 ? -a0 : a0) % 8];
@@ -755,6 +782,9 @@ teardown(Machine *M)
 			nng_aio_free(A.a);
 			A.a = nullptr;
 		}
+	for (auto &r : M->raws)
+		rp_close(&r);
+	M->raws.clear();
 	for (auto &p : M->paths)
 		unlink(p.c_str());
 	if (M->hsrv != nullptr) {
@@ -822,8 +852,16 @@ static const char *kTemplates[] = {
 	"http 1|http 0|http 1|stats",
 	// 12: pair0 both ways with aio forms
 	"open 0 0|open 0 0|listen 0 T|dial 1 0 F|sleep 2|recv 1 2 0 0|send 0 2 10 1|wait 0|wait 1|send 1 S 10|recv 0 S",
+	// round 7 (not part of the C20 enumeration: the kernel's buffering decides how many allocations they make)
+	// 13: PUB with a subscriber (raw wire peer over ipc / tcp) that never reads: its per-pipe send queue fills and overflows
+	"open 2 0|listen 0 T|stallpeer 0|send 0 1 70000|send 0 1 70000|send 0 1 70000|send 0 1 70000|send 0 1 70000|send 0 1 70000|send 0 1 70000|send 0 1 70000|send 0 1 70000|send 0 1 70000|send 0 1 70000|send 0 1 70000|send 0 1 70000|send 0 1 70000|send 0 1 70000|send 0 1 70000|send 0 1 70000|send 0 1 70000|send 0 1 70000|send 0 1 70000|send 0 1 70000|send 0 1 70000|send 0 1 70000|send 0 1 70000|sleep 2",
+	// 14: BUS with one good and one stalled peer
+	"open 10 0|open 10 0|listen 0 T|dial 1 0 F|stallpeer 0|sleep 2|send 0 1 70000|send 0 1 70000|send 0 1 70000|send 0 1 70000|send 0 1 70000|send 0 1 70000|send 0 1 70000|send 0 1 70000|send 0 1 70000|send 0 1 70000|send 0 1 70000|send 0 1 70000|send 0 1 70000|send 0 1 70000|send 0 1 70000|send 0 1 70000|send 0 1 70000|send 0 1 70000|send 0 1 70000|send 0 1 70000|send 0 1 70000|send 0 1 70000|send 0 1 70000|send 0 1 70000|recv 1 S",
+	// 15: PUSH towards a stalled puller: the send buffer fills, sends are refused
+	"open 4 0|listen 0 T|setopt 0 1 0 0 2|stallpeer 0|send 0 1 70000|send 0 1 70000|send 0 1 70000|send 0 1 70000|send 0 1 70000|send 0 1 70000|send 0 1 70000|send 0 1 70000|send 0 1 70000|send 0 1 70000|send 0 1 70000|send 0 1 70000|send 0 1 70000|send 0 1 70000|send 0 1 70000|send 0 1 70000|send 0 1 70000|send 0 1 70000|send 0 1 70000|send 0 1 70000|send 0 1 70000|send 0 1 70000|send 0 1 70000|send 0 1 70000|sleep 2",
 };
-static const int kNTemplates = (int) (sizeof kTemplates / sizeof kTemplates[0]);
+static const int kNTemplates     = (int) (sizeof kTemplates / sizeof kTemplates[0]);
+static const int kNEnumTemplates = kNTemplates - 3;
 
 inline Gen<std::string>
 genRandomOp()
@@ -864,6 +902,8 @@ gen_program()
 	int         t  = *pbt::range<int>(0, kNTemplates - 1);
 	int         T  = *pbt::welem<int>({{4, 0}, {2, 1}, {2, 2}, {2, 3}});
 	int         F  = *pbt::welem<int>({{3, 0}, {1, 1}});
+	if (t >= kNEnumTemplates && (T == 0 || T == 3))
+		T = T == 0 ? 1 : 2; // (the stalled wire peers of the round-7 templates speak ipc / tcp)
 	std::string tp = kTemplates[t];
 	std::vector<std::string> lines;
 	size_t      pos = 0;
